@@ -109,7 +109,7 @@ class Scheduler:
         self.opcode_files = tuple(opcode_files)
         self.extra_files = tuple(extra_files)
         self.step_cap = step_cap
-        self.cv = threading.Condition(_thread.allocate_lock())
+        self.cv = seams._ORIG_CONDITION(_thread.allocate_lock())  # the scheduler itself must never use a simulated primitive
         self.turn = None
         self.alive = set()
         self.blocked = {}  # thread name -> lock / event
